@@ -601,3 +601,76 @@ def parse_segment(data_cw, v, mode, n_chars):
             pos += 6
     after = bits[pos:pos + 4]
     return ind, count, groups, after, pos
+
+
+# ---------------------------------------------------------------- documented penalty on terms (C11)
+
+def penalty_line_t(vals, labs):
+    """(pattern, runs) as 32-bit terms for one row/column; vals: width-1 ints/terms, labs: concrete labels"""
+    n = len(vals)
+    patt = 0
+    PAT = [1, 0, 1, 1, 1, 0, 1]
+    for i in range(n - 6):
+        if all(labs[i + k] == DATA for k in range(7)):
+            hit = 1
+            for k in range(7):
+                hit = T.land(hit, T.eq(1, vals[i + k], PAT[k]))
+            patt = T.add(32, patt, T.ite(32, hit, 40, 0))
+    runs = 0
+    i = 0
+    while i < n:
+        if labs[i] != DATA:
+            i += 1
+            continue
+        j = i
+        while j + 1 < n and labs[j + 1] == DATA:
+            j += 1
+        # segment i..j of data modules: run-length recurrence
+        length = 1
+        for k in range(i, j + 1):
+            if k > i:
+                same = T.eq(1, vals[k], vals[k - 1])
+                length = T.ite(8, same, T.add(8, length, 1), 1)
+            ends = 1 if k == j else T.ne(1, vals[k + 1], vals[k])
+            big = T.ule(8, 5, length)
+            pen = T.ite(32, T.land(ends, big), T.zext(8, 32, T.sub(8, length, 2)), 0)
+            runs = T.add(32, runs, pen)
+        i = j + 1
+    return patt, runs
+
+
+def squares_t(vals, labs):
+    n = len(vals)
+    tot = 0
+    for r in range(n - 1):
+        for c in range(n - 1):
+            if all(labs[r + a][c + b] == DATA for a in (0, 1) for b in (0, 1)):
+                e = T.land(T.land(T.eq(1, vals[r][c], vals[r][c + 1]), T.eq(1, vals[r][c], vals[r + 1][c])),
+                           T.eq(1, vals[r][c], vals[r + 1][c + 1]))
+                tot = T.add(32, tot, T.ite(32, e, 3, 0))
+    return tot
+
+
+def dark_t(vals):
+    """dark-ratio term: 10 per 5% step of floor(100*dark/n^2) away from 50%; the count is accumulated row-major"""
+    n = len(vals)
+    cnt = 0
+    for r in range(n):
+        for c in range(n):
+            x = vals[r][c]
+            cnt = T.add(64, cnt, x if type(x) is int else T.zext(1, 64, x))
+    pct = T.udiv(64, T.mul(64, cnt, 100), n * n)
+    return T.zext(8, 32, T.select_const([percent_score(p) for p in range(100)], 8, pct, 64))
+
+
+def squares_conds(vals, labs):
+    """row-major list of (r, c, condition) for every 2x2 block of data modules: all four equal"""
+    n = len(vals)
+    out = []
+    for r in range(n - 1):
+        for c in range(n - 1):
+            if all(labs[r + a][c + b] == DATA for a in (0, 1) for b in (0, 1)):
+                e = T.land(T.land(T.eq(1, vals[r][c], vals[r][c + 1]), T.eq(1, vals[r][c], vals[r + 1][c])),
+                           T.eq(1, vals[r][c], vals[r + 1][c + 1]))
+                out.append((r, c, e))
+    return out
